@@ -2,7 +2,7 @@
    enclosures whose [true] is proved (Theory/CertT.v) to imply a statement about every point
    of a continuum. *)
 From Coq Require Import ZArith QArith List Bool.
-From PyqspV Require Import Base.Ops Base.IntervalZ Base.TrigZ Model.LPolyM Model.LAlgM Model.QInst Model.ConvM.
+From PyqspV Require Import Base.Ops Base.IntervalZ Base.TrigZ Model.LPolyM Model.LAlgM Model.QInst Model.ConvM Model.ResponseM.
 Import ListNotations.
 
 Definition lpQ2I (p : lpoly Q) : lpoly I := LP (lp_dmin p) (map iofQ (lp_coefs p)) (lp_isz p).
@@ -87,3 +87,51 @@ Definition check_roundtrip (phis phis' : list Q) (tol stol : Q) : bool :=
   | Some g, Some h => elem_close g h tol
   | _, _ => false
   end && gauge_ok phis phis' stol false.
+
+(* ---- C10: complex intervals and the interval evaluation of the defining matrix product *)
+Definition CI : Type := (I * I)%type.
+Definition ciadd (a b : CI) : CI := (iadd (fst a) (fst b), iadd (snd a) (snd b)).
+Definition cineg (a : CI) : CI := (ineg (fst a), ineg (snd a)).
+Definition cimul (a b : CI) : CI :=
+  (isub (imul (fst a) (fst b)) (imul (snd a) (snd b)), iadd (imul (fst a) (snd b)) (imul (snd a) (fst b))).
+Definition OpsCI : Ops CI :=
+  mkOps CI (izero, izero) (ione, izero) ciadd (fun a b => ciadd a (cineg b)) cimul cineg.
+Definition ciR (i : I) : CI := (i, izero).
+Definition ci_i : CI := (izero, ione).
+Definition ci_h : CI := ciR (isqrt (iofQ (1 # 2))).
+Definition ci_cs (c : I * I) : CI * CI := (ciR (fst c), ciR (snd c)).
+
+Definition resp_encl (wz mx : bool) (a : Q) (phis : list Q) : option CI :=
+  match map cos_sin_encl phis with
+  | [] => None
+  | cs :: l =>
+      let ai := iofQ a in
+      let si := isqrt (isub ione (imul ai ai)) in
+      Some (resp OpsCI ci_i ci_h wz mx (ciR ai) (ciR si) (ci_cs cs) (map ci_cs l))
+  end.
+
+(* |enclosure - (re + i im)| <= tol, through |dre| + |dim| *)
+Definition resp_dist (e : CI) (re im : Q) : Z :=
+  (iabs_ub (isub (fst e) (iofQ re)) + iabs_ub (isub (snd e) (iofQ im)))%Z.
+Definition check_resp_val (wz mx : bool) (a : Q) (phis : list Q) (re im tol : Q) : bool :=
+  Qleb (-1) a && Qleb a 1 &&
+  match resp_encl wz mx a phis with Some e => scaled_le_q (resp_dist e re im) tol | None => false end.
+
+(* batch form: the cos/sin enclosures of the phases are computed once.
+   pts: list of (a, (re, im)); the result lists, per point, the certified distance bound
+   (scaled by 2^P) or None when a is outside [-1,1] *)
+Definition resp_encl_cs (wz mx : bool) (a : Q) (csl : list (I * I)) : option CI :=
+  match csl with
+  | [] => None
+  | cs :: l =>
+      let ai := iofQ a in
+      let si := isqrt (isub ione (imul ai ai)) in
+      Some (resp OpsCI ci_i ci_h wz mx (ciR ai) (ciR si) (ci_cs cs) (map ci_cs l))
+  end.
+Definition resp_dists (wz mx : bool) (phis : list Q) (pts : list (Q * (Q * Q))) : list (option Z) :=
+  let csl := map cos_sin_encl phis in
+  map (fun p => if Qleb (-1) (fst p) && Qleb (fst p) 1
+                then match resp_encl_cs wz mx (fst p) csl with
+                     | Some e => Some (resp_dist e (fst (snd p)) (snd (snd p)))
+                     | None => None end
+                else None) pts.
